@@ -133,20 +133,20 @@ Inductive exn := ExCb (id : nat) | ExKeyError | ExIllegal.
 
 (* process: call the callbacks registered for the signal in dict (= cid) order; a raising callback is
    skipped over when ignore_exceptions, otherwise its exception propagates at once *)
-Fixpoint call_all (ignore : bool) (d : doc) (fs : list callable) : list nat * option exn :=
+Fixpoint call_all (ignore : bool) (d : doc) (fs : list callable) : list (nat * bool) * option exn :=
   match fs with
   | [] => ([], None)
   | f :: fs' =>
       if raises_on f d then
-        if ignore then let '(l, x) := call_all ignore d fs' in (fn_id f :: l, x)
-        else ([fn_id f], Some (ExCb (fn_id f)))
-      else let '(l, x) := call_all ignore d fs' in (fn_id f :: l, x)
+        if ignore then let '(l, x) := call_all ignore d fs' in ((fn_id f, true) :: l, x)
+        else ([(fn_id f, true)], Some (ExCb (fn_id f)))
+      else let '(l, x) := call_all ignore d fs' in ((fn_id f, false) :: l, x)
   end.
 
 Definition registered (r : registry) (s : sig) : list callable :=
   map e_fn (filter (fun e => sig_eqb (e_sig e) s) (cbs r)).
 
-Definition process (r : registry) (d : doc) : list nat * option exn :=
+Definition process (r : registry) (d : doc) : list (nat * bool) * option exn :=
   call_all (ign r) d (registered r (doc_sig d)).
 
 (* ------------------------------------------------------------------ Dispatcher *)
@@ -243,18 +243,19 @@ Definition plan_action (c : cstate) (m : pmsg) : action :=
   | _ => ASkip
   end.
 
-(* one emission as observed: the document and the callables invoked for it, in order *)
-Record emission := { em_doc : doc; em_invoked : list nat }.
+(* one emission as observed: the document and the callables invoked for it, in order, each with
+   whether it raised *)
+Record emission := { em_doc : doc; em_calls : list (nat * bool) }.
 
 (* emit the documents one after the other through [proc]; stop at the first one that raises *)
-Fixpoint emit_all (proc : doc -> list nat * option exn) (ds : list doc) : list emission * option exn :=
+Fixpoint emit_all (proc : doc -> list (nat * bool) * option exn) (ds : list doc) : list emission * option exn :=
   match ds with
   | [] => ([], None)
   | d :: ds' =>
       let '(inv, x) := proc d in
       match x with
-      | Some e => ([{| em_doc := d; em_invoked := inv |}], Some e)
-      | None => let '(ems, y) := emit_all proc ds' in ({| em_doc := d; em_invoked := inv |} :: ems, y)
+      | Some e => ([{| em_doc := d; em_calls := inv |}], Some e)
+      | None => let '(ems, y) := emit_all proc ds' in ({| em_doc := d; em_calls := inv |} :: ems, y)
       end
   end.
 
@@ -336,7 +337,7 @@ Fixpoint run_plan (s : re) (c : cstate) (plan : list pmsg) (ems : list emission)
 Definition run_call (s0 : re) (subs : list (subname * list callable)) (plan : list pmsg) : re * obs :=
   let s1 := clear_call_cache s0 in
   match normalize_subs subs with
-  | None => (s1, OErr ExKeyError)
+  | None => (s1, OCall [] [] (Raised ExKeyError))
   | Some l =>
       let s2 := subscribe_temps s1 l in
       let '(s3, c, ems, toks, x) := run_plan s2 cstate0 plan [] [] in
@@ -381,6 +382,24 @@ Definition run_hist (h : list op) : list obs := snd (run_from re0 h).
    CallbackRegistry.connect handed out a cid that another public token already holds *)
 Definition finding_C18_a (h : list op) : bool := shared (reg (dsp (fst (run_from re0 h)))).
 
+(* finding class C19-a: with callback exceptions NOT ignored, a callback invoked for a stop document raised *)
+Definition stop_raised (o : obs) : bool :=
+  match o with
+  | OCall ems _ _ => existsb (fun em => is_stop (em_doc em) && existsb snd (em_calls em)) ems
+  | _ => false
+  end.
+Fixpoint stop_raise_from (ignore : bool) (h : list op) (os : list obs) : bool :=
+  match h, os with
+  | o :: h', ob :: os' =>
+      match o with
+      | SetIgnore b => stop_raise_from b h' os'
+      | RunCall _ _ => (negb ignore && stop_raised ob) || stop_raise_from ignore h' os'
+      | _ => stop_raise_from ignore h' os'
+      end
+  | _, _ => false
+  end.
+Definition finding_C19_a (h : list op) : bool := stop_raise_from false h (run_hist h).
+
 (* ------------------------------------------------------------------ the specification *)
 
 (* A subscription is a token, the callable, the kinds asked for, and whether it is temporary
@@ -406,7 +425,7 @@ Definition sp_unsubscribe (s : spec_st) (t : nat) : spec_st :=
   {| live := filter (fun x => negb (s_tok x =? t)) (live s); next_tok := next_tok s; sp_ign := sp_ign s |}.
 
 (* every live subscription asking for the document's kind gets it, in subscription order *)
-Definition sp_process (s : spec_st) (d : doc) : list nat * option exn :=
+Definition sp_process (s : spec_st) (d : doc) : list (nat * bool) * option exn :=
   call_all (sp_ign s) d (map s_fn (filter (fun x => covers (s_name x) (doc_sig d)) (live s))).
 
 Fixpoint sp_subscribe_temps (s : spec_st) (l : list (subname * callable)) : spec_st :=
@@ -450,7 +469,7 @@ Definition sp_end_call (s : spec_st) : spec_st :=
 
 Definition sp_run_call (s0 : spec_st) (subs : list (subname * list callable)) (plan : list pmsg) : spec_st * obs :=
   match normalize_subs subs with
-  | None => (s0, OErr ExKeyError)
+  | None => (s0, OCall [] [] (Raised ExKeyError))
   | Some l =>
       let s2 := sp_subscribe_temps s0 l in
       let '(s3, c, ems, toks, x) := sp_run_plan s2 cstate0 plan [] [] in
@@ -497,7 +516,7 @@ Definition outcome_eqb (a b : outcome) : bool :=
   | _, _ => false
   end.
 Definition emission_eqb (a b : emission) : bool :=
-  doc_eqb (em_doc a) (em_doc b) && lnat_beq (em_invoked a) (em_invoked b).
+  doc_eqb (em_doc a) (em_doc b) && list_beq (prod_beq Nat.eqb Bool.eqb) (em_calls a) (em_calls b).
 Definition obs_eqb (a b : obs) : bool :=
   match a, b with
   | OTok t, OTok t' => t =? t'
@@ -508,4 +527,4 @@ Definition obs_eqb (a b : obs) : bool :=
   end.
 Definition lobs_eqb := list_beq obs_eqb.
 Definition lstr_eqb := list_beq String.eqb.
-Definition E (d : doc) (l : list nat) : emission := {| em_doc := d; em_invoked := l |}.
+Definition E (d : doc) (l : list (nat * bool)) : emission := {| em_doc := d; em_calls := l |}.
